@@ -1,338 +1,164 @@
-(* C17, command-line half: what classify looks at (C17_args), which file it has analysed
-   (C17_file), and its soundness with respect to CPython's own argv grammar [py_cmdline]. *)
+(* C17, command-line half: _scan_options reads python's own options the way CPython's getopt does, so
+   an approval is sound with respect to [py_cmdline] for EVERY token list; what the decision reads
+   (C17_args) and which file it has analysed (C17_file) follow from the same correspondence. *)
 From DippyV Require Import Base.Str Base.Sx Base.Tree Gen.Tables Model.PyArgs Proofs.PyArgsP.
 
-(* ---------------------------------------------------------------- closed facts about the flag tables *)
-Lemma fwa_dashed : forallb is_dash PY_FLAGS_WITH_ARG = true. Proof. vm_compute. reflexivity. Qed.
-Lemma cm_dashed : forallb is_dash PY_CM_FLAGS = true. Proof. vm_compute. reflexivity. Qed.
-Lemma safe_dashed : forallb is_dash PY_SAFE_FLAGS = true. Proof. vm_compute. reflexivity. Qed.
+Definition known (ss : list str) : bool := forallb (fun o => mem_str o PY_KNOWN_OPTIONS) ss.
+Definition has_info (ss : list str) : bool := existsb (fun o => mem_str o PY_INFO_OPTIONS) ss.
 
-Lemma undashed_plain s : is_dash s = false ->
-  mem_str s PY_SAFE_FLAGS = false /\ mem_str s PY_CM_FLAGS = false /\ mem_str s PY_FLAGS_WITH_ARG = false.
-Proof.
-  intros H.
-  assert (G : forall l, forallb is_dash l = true -> mem_str s l = false).
-  { intros l Hl. apply not_mem. intro Hin. rewrite forallb_forall in Hl. rewrite (Hl s Hin) in H. discriminate. }
-  repeat split; apply G; [apply safe_dashed|apply cm_dashed|apply fwa_dashed].
-Qed.
+(* CPython's flags after the options in ss *)
+Definition upd (fl : pyflags) (ss : list str) : pyflags :=
+  mkfl (fl_version fl || mem_str $"-V" ss) (fl_inspect fl || mem_str $"-i" ss) (fl_skip1 fl || mem_str $"-x" ss).
 
-(* ---------------------------------------------------------------- tokens _own_options consumes *)
-
-(* a run of tokens that _own_options reads entirely as python's own options (without -c / -m) *)
-Inductive consumed : list str -> Prop :=
-| cons_nil : consumed []
-| cons_arg t a l : mem_str t PY_CM_FLAGS = false -> mem_str t PY_FLAGS_WITH_ARG = true ->
-                   consumed l -> consumed (t :: a :: l)
-| cons_flag t l : mem_str t PY_CM_FLAGS = false -> mem_str t PY_FLAGS_WITH_ARG = false ->
-                  is_dash t = true -> t <> dash -> consumed l -> consumed (t :: l).
-
-Lemma own_tail_app pre l : consumed pre -> own_tail (pre ++ l) = pre ++ own_tail l.
-Proof.
-  induction 1 as [|t a l0 Hc Hf _ IH|t l0 Hc Hf Hd Hn _ IH]; [reflexivity| |].
-  - cbn [app own_tail]. rewrite Hc, Hf, IH. reflexivity.
-  - cbn [app own_tail]. rewrite Hc, Hf, Hd.
-    destruct (str_eqb_spec t dash) as [E|_]; [contradiction|]. cbn [negb andb]. rewrite IH. reflexivity.
-Qed.
-
-Lemma own_tail_stop s post : is_dash s = false -> own_tail (s :: post) = [].
-Proof.
-  intros H. destruct (undashed_plain s H) as [_ [Hc Hf]]. cbn [own_tail]. rewrite Hc, Hf, H. reflexivity.
-Qed.
-
-Lemma own_tail_cm c tail : mem_str c PY_CM_FLAGS = true -> own_tail (c :: tail) = [c].
-Proof. intros H. cbn [own_tail]. rewrite H. reflexivity. Qed.
-
-(* does _find_script_path give up inside a consumed run (it stops at a help/version flag) *)
-Fixpoint blocked (l : list str) : bool :=
-  match l with
-  | [] => false
-  | t :: r =>
-      if mem_str t PY_SAFE_FLAGS then true
-      else if mem_str t PY_CM_FLAGS then true
-      else if mem_str t PY_FLAGS_WITH_ARG then match r with [] => true | _ :: r' => blocked r' end
-      else if is_dash t then blocked r
-      else false
-  end.
-
-Lemma find_script_app pre l i : consumed pre ->
-  find_script_at i (pre ++ l) = if blocked pre then None else find_script_at (length pre + i) l.
-Proof.
-  intros H. revert i. induction H as [|t a l0 Hc Hf _ IH|t l0 Hc Hf Hd Hn _ IH]; intros i; [reflexivity| |].
-  - cbn [app find_script_at blocked length]. rewrite Hc, Hf.
-    destruct (mem_str t PY_SAFE_FLAGS); [reflexivity|]. rewrite IH.
-    replace (length l0 + S (S i))%nat with (S (S (length l0)) + i)%nat by lia. reflexivity.
-  - cbn [app find_script_at blocked length]. rewrite Hc, Hf, Hd.
-    destruct (mem_str t PY_SAFE_FLAGS); [reflexivity|]. rewrite IH.
-    replace (length l0 + S i)%nat with (S (length l0) + i)%nat by lia. reflexivity.
-Qed.
-
-Lemma find_script_stop i s post : is_dash s = false -> find_script_at i (s :: post) = Some (i, s).
-Proof.
-  intros H. destruct (undashed_plain s H) as [Hs [Hc Hf]]. cbn [find_script_at]. rewrite Hs, Hc, Hf, H. reflexivity.
-Qed.
-
-Lemma find_script_cm i c tail : mem_str c PY_CM_FLAGS = true -> find_script_at i (c :: tail) = None.
-Proof. intros H. cbn [find_script_at]. rewrite H. destruct (mem_str c PY_SAFE_FLAGS); reflexivity. Qed.
-
-Lemma index_of_lt x l : mem_str x l = true -> (index_of x l < length l)%nat.
-Proof.
-  intros H. apply mem_str_In in H. induction l as [|y l IH]; [destruct H|].
-  cbn [index_of length]. destruct (str_eqb_spec y x) as [->|Hn]; [lia|].
-  destruct H as [->|H]; [contradiction|]. specialize (IH H). lia.
-Qed.
-
-Lemma nth_error_indep {A} (a : list A) s p p' n : (n <= length a)%nat ->
-  nth_error (a ++ s :: p) n = nth_error (a ++ s :: p') n.
-Proof.
-  revert n. induction a as [|x a IH]; intros n Hn; cbn [length] in Hn.
-  - assert (n = O) by lia. subst. reflexivity.
-  - destruct n; [reflexivity|]. cbn [app nth_error]. apply IH. lia.
-Qed.
-
-Section Args.
-  Variable resolve : str -> option str.
-  Variable analyze : str -> bool.
-  Notation classify := (classify resolve analyze).
-
-  Definition cwd_of (cc : option str) (pc : str) : str := match cc with Some c => c | None => pc end.
-
-  (* the -m branch of classify as a function of the tokens it reads *)
-  Definition m_branch (tokens own : list str) : pyres :=
-    match nth_error tokens (S (index_of $"-m" own)) with
-    | Some m => if str_eqb m $"calendar" then PAllow else PAsk
-    | None => PAsk
-    end.
-
-  (* classify for at least two tokens *)
-  Definition classify_body (cwd t0 : str) (rest : list str) : pyres :=
-    let own := t0 :: own_tail rest in
-    if existsb (fun t => mem_str t PY_SAFE_FLAGS) (own_tail rest) then PAllow
-    else if mem_str $"-c" own then PAsk
-    else if mem_str $"-m" own then m_branch (t0 :: rest) own
-    else if mem_str $"-i" own then PAsk
-    else match find_script rest with
-         | None => PAsk
-         | Some tok =>
-             match resolve (pjoin cwd tok) with
-             | None => PExn
-             | Some p => if analyze p then PAllow else PAsk
-             end
-         end.
-  Lemma classify_cons cc pc t0 rest : rest <> [] -> classify cc pc (t0 :: rest) = classify_body (cwd_of cc pc) t0 rest.
-  Proof. destruct rest; [congruence|reflexivity]. Qed.
-  Lemma app_cons_ne {A} (a : list A) x b : a ++ x :: b <> [].
-  Proof. destruct a; discriminate. Qed.
-
-  (* classify on  t0 :: pre ++ s :: post  where pre is consumed and s is the first non-option *)
-  Definition classify_script (cwd t0 : str) (pre : list str) (s : str) : pyres :=
-    let own := t0 :: pre in
-    if existsb (fun t => mem_str t PY_SAFE_FLAGS) pre then PAllow
-    else if mem_str $"-c" own then PAsk
-    else if mem_str $"-m" own then m_branch (own ++ [s]) own
-    else if mem_str $"-i" own then PAsk
-    else if blocked pre then PAsk
-    else match resolve (pjoin cwd s) with
-         | None => PExn
-         | Some p => if analyze p then PAllow else PAsk
-         end.
-
-  Lemma m_branch_indep own s p p' : mem_str $"-m" own = true ->
-    m_branch (own ++ s :: p) own = m_branch (own ++ s :: p') own.
-  Proof.
-    intros H. unfold m_branch. rewrite (nth_error_indep own s p p'); [reflexivity|].
-    apply index_of_lt in H. lia.
-  Qed.
-
-  (* refinement: after the first non-option token nothing is read *)
-  Lemma classify_script_form cc pc t0 pre s post : consumed pre -> is_dash s = false ->
-    classify cc pc (t0 :: pre ++ s :: post) = classify_script (cwd_of cc pc) t0 pre s.
-  Proof.
-    intros Hp Hs. rewrite classify_cons by apply app_cons_ne. unfold classify_body, classify_script, find_script.
-    rewrite (own_tail_app pre (s :: post) Hp), (own_tail_stop s post Hs), app_nil_r.
-    destruct (existsb (fun t => mem_str t PY_SAFE_FLAGS) pre); [reflexivity|].
-    destruct (mem_str $"-c" (t0 :: pre)); [reflexivity|].
-    destruct (mem_str $"-m" (t0 :: pre)) eqn:Em.
-    { apply (m_branch_indep (t0 :: pre) s post [] Em). }
-    destruct (mem_str $"-i" (t0 :: pre)); [reflexivity|].
-    rewrite (find_script_app pre (s :: post) 1 Hp).
-    destruct (blocked pre); [reflexivity|].
-    rewrite (find_script_stop _ s post Hs). reflexivity.
-  Qed.
-
-  Lemma args_script_tail cc pc t0 pre s post post' : consumed pre -> is_dash s = false ->
-    classify cc pc (t0 :: pre ++ s :: post) = classify cc pc (t0 :: pre ++ s :: post').
-  Proof. intros Hp Hs. rewrite !classify_script_form by assumption. reflexivity. Qed.
-
-  (* -c CODE / -m MODULE: nothing after the argument is read *)
-  Lemma args_cm_tail cc pc t0 pre c a post post' : consumed pre -> mem_str c PY_CM_FLAGS = true ->
-    classify cc pc (t0 :: pre ++ c :: a :: post) = classify cc pc (t0 :: pre ++ c :: a :: post').
-  Proof.
-    intros Hp Hc. rewrite !classify_cons by apply app_cons_ne. unfold classify_body, find_script.
-    rewrite !(own_tail_app pre _ Hp), !(own_tail_cm c _ Hc).
-    destruct (existsb (fun t => mem_str t PY_SAFE_FLAGS) (pre ++ [c])); [reflexivity|].
-    destruct (mem_str $"-c" (t0 :: pre ++ [c])); [reflexivity|].
-    destruct (mem_str $"-m" (t0 :: pre ++ [c])) eqn:Em.
-    { replace (t0 :: pre ++ c :: a :: post) with ((t0 :: pre ++ [c]) ++ a :: post)
-        by (cbn [app]; rewrite <- app_assoc; reflexivity).
-      replace (t0 :: pre ++ c :: a :: post') with ((t0 :: pre ++ [c]) ++ a :: post')
-        by (cbn [app]; rewrite <- app_assoc; reflexivity).
-      apply (m_branch_indep (t0 :: pre ++ [c]) a post post' Em). }
-    destruct (mem_str $"-i" (t0 :: pre ++ [c])); [reflexivity|].
-    rewrite !(find_script_app pre _ 1 Hp).
-    destruct (blocked pre); [reflexivity|]. rewrite !(find_script_cm _ c _ Hc). reflexivity.
-  Qed.
-
-  (* ------------------------------------------------------------- which file *)
-
-  Lemma file_process_cwd c pc pc' tokens : classify (Some c) pc tokens = classify (Some c) pc' tokens.
-  Proof. reflexivity. Qed.
-
-  Lemma file_default_cwd pc tokens : classify None pc tokens = classify (Some pc) pc tokens.
-  Proof. reflexivity. Qed.
-
-  (* an approval has exactly three sources *)
-  Lemma allow_inv cc pc t0 rest : classify cc pc (t0 :: rest) = PAllow ->
-    (exists h, In h (own_tail rest) /\ In h PY_SAFE_FLAGS) \/
-    (mem_str $"-m" (t0 :: own_tail rest) = true /\
-     nth_error (t0 :: rest) (S (index_of $"-m" (t0 :: own_tail rest))) = Some $"calendar") \/
-    (exists s p, find_script rest = Some s /\ resolve (pjoin (cwd_of cc pc) s) = Some p /\ analyze p = true).
-  Proof.
-    unfold classify. destruct rest as [|r0 rest]; [discriminate|]. set (rs := r0 :: rest).
-    fold (cwd_of cc pc).
-    destruct (existsb (fun t => mem_str t PY_SAFE_FLAGS) (own_tail rs)) eqn:Es.
-    { intros _. left. apply existsb_exists in Es as [h [Hh Hm]]. exists h. split; [exact Hh|]. apply mem_str_In. exact Hm. }
-    destruct (mem_str $"-c" (t0 :: own_tail rs)); [discriminate|].
-    destruct (mem_str $"-m" (t0 :: own_tail rs)) eqn:Em.
-    { destruct (nth_error (t0 :: rs) (S (index_of $"-m" (t0 :: own_tail rs)))) as [m|]; [|discriminate].
-      destruct (str_eqb_spec m $"calendar") as [E|]; [|discriminate].
-      intros _. right. left. split; [reflexivity|]. rewrite E. reflexivity. }
-    destruct (mem_str $"-i" (t0 :: own_tail rs)); [discriminate|].
-    destruct (find_script rs) as [s|]; [|discriminate].
-    destruct (resolve (pjoin (cwd_of cc pc) s)) as [p|] eqn:Er; [|discriminate].
-    destruct (analyze p) eqn:Ea; [|discriminate].
-    intros _. right. right. exists s, p. repeat split; assumption.
-  Qed.
-End Args.
-
-(* the file system is consulted about one path only *)
-Lemma file_only_path resolve an1 an2 cc pc tokens :
-  (forall s p, find_script (tl tokens) = Some s -> resolve (pjoin (cwd_of cc pc) s) = Some p -> an1 p = an2 p) ->
-  classify resolve an1 cc pc tokens = classify resolve an2 cc pc tokens.
-Proof.
-  intros H. unfold classify. destruct tokens as [|t0 rest]; [reflexivity|]. cbn [tl] in H.
-  destruct rest as [|r0 rest]; [reflexivity|]. set (rs := r0 :: rest) in *. fold (cwd_of cc pc).
-  destruct (existsb _ (own_tail rs)); [reflexivity|].
-  destruct (mem_str $"-c" _); [reflexivity|]. destruct (mem_str $"-m" _); [reflexivity|].
-  destruct (mem_str $"-i" _); [reflexivity|].
-  destruct (find_script rs) as [s|]; [|reflexivity].
-  destruct (resolve (pjoin (cwd_of cc pc) s)) as [p|] eqn:Er; [|reflexivity].
-  rewrite (H s p eq_refl Er). reflexivity.
-Qed.
-
-(* `python [plain options] script args`: the verdict is that of resolve(cwd/script) *)
-Lemma file_relative resolve analyze cwd pc t0 pre s post :
-  consumed pre -> is_dash s = false -> is_abs s = false -> suffixb [47] cwd = false ->
-  existsb (fun t => mem_str t PY_SAFE_FLAGS) pre = false ->
-  mem_str $"-c" (t0 :: pre) = false -> mem_str $"-m" (t0 :: pre) = false -> mem_str $"-i" (t0 :: pre) = false ->
-  blocked pre = false ->
-  classify resolve analyze (Some cwd) pc (t0 :: pre ++ s :: post) =
-  match resolve (cwd ++ [47] ++ s) with
-  | None => PExn
-  | Some p => if analyze p then PAllow else PAsk
-  end.
-Proof.
-  intros Hp Hs Ha Hc H1 H2 H3 H4 H5. rewrite classify_script_form by assumption.
-  unfold classify_script, cwd_of, pjoin. rewrite H1, H2, H3, H4, H5, Ha, Hc. reflexivity.
-Qed.
-
-(* ---------------------------------------------------------------- soundness w.r.t. CPython's grammar *)
-
-(* whole-token options that only set a configuration bit *)
-Definition PLAIN_FLAGS : list str :=
-  [$"-b"; $"-bb"; $"-B"; $"-d"; $"-E"; $"-I"; $"-O"; $"-OO"; $"-P"; $"-q"; $"-R"; $"-s"; $"-S"; $"-t"; $"-u"; $"-v"].
-Definition ARG_FLAGS : list str := [$"-W"; $"-X"].
-
-Inductive plain_pre : list str -> Prop :=
-| pp_nil : plain_pre []
-| pp_flag t l : In t PLAIN_FLAGS -> plain_pre l -> plain_pre (t :: l)
-| pp_arg t a l : In t ARG_FLAGS -> is_dash a = false -> plain_pre l -> plain_pre (t :: a :: l).
-
-Definition special : list str := [$"-c"; $"-m"; $"-i"; $"--"; $"--help"; $"--version"; dash].
-
-Lemma plain_flag_facts t : In t PLAIN_FLAGS ->
-  mem_str t PY_CM_FLAGS = false /\ mem_str t PY_FLAGS_WITH_ARG = false /\ mem_str t PY_SAFE_FLAGS = false /\
-  is_dash t = true /\ mem_str t special = false /\ (forall fl nx, cluster fl (tl t) nx = CNext fl false).
-Proof.
-  intros H. unfold PLAIN_FLAGS in H. cbn [In] in H.
-  repeat (destruct H as [<-|H]; [vm_compute; repeat split; reflexivity|]). destruct H.
-Qed.
-
-Lemma arg_flag_facts t : In t ARG_FLAGS ->
-  mem_str t PY_CM_FLAGS = false /\ mem_str t PY_FLAGS_WITH_ARG = true /\ mem_str t PY_SAFE_FLAGS = false /\
-  is_dash t = true /\ mem_str t special = false /\ (forall fl a, cluster fl (tl t) (Some a) = CNext fl true).
-Proof.
-  intros H. unfold ARG_FLAGS in H. cbn [In] in H.
-  repeat (destruct H as [<-|H]; [vm_compute; repeat split; reflexivity|]). destruct H.
-Qed.
-
-Lemma special_dashed : forallb is_dash special = true. Proof. vm_compute. reflexivity. Qed.
-Lemma undashed_special a : is_dash a = false -> mem_str a special = false.
-Proof.
-  intros H. apply not_mem. intro Hin. pose proof special_dashed as G. rewrite forallb_forall in G.
-  rewrite (G a Hin) in H. discriminate.
-Qed.
-
-Lemma plain_consumed pre : plain_pre pre -> consumed pre.
-Proof.
-  induction 1 as [|t l Ht _ IH|t a l Ht Ha _ IH]; [constructor| |].
-  - destruct (plain_flag_facts t Ht) as [Hc [Hf [_ [Hd [Hsp _]]]]]. apply cons_flag; try assumption.
-    intros ->. vm_compute in Hsp. discriminate.
-  - destruct (arg_flag_facts t Ht) as [Hc [Hf _]]. apply cons_arg; assumption.
-Qed.
-
-Lemma mem_special x t : In x special -> mem_str t special = false -> str_eqb t x = false.
-Proof.
-  intros Hx Ht. destruct (str_eqb_spec t x) as [->|]; [|reflexivity].
-  apply mem_str_In in Hx. congruence.
-Qed.
-
-(* nothing in a plain run is (or looks like) -c -m -i -- --help --version -, or a help/version flag *)
-Lemma plain_clean pre : plain_pre pre ->
-  existsb (fun t => mem_str t PY_SAFE_FLAGS) pre = false /\ blocked pre = false /\
-  (forall x, In x special -> mem_str x pre = false).
-Proof.
-  induction 1 as [|t l Ht _ IH|t a l Ht Ha _ IH].
-  - repeat split; reflexivity.
-  - destruct (plain_flag_facts t Ht) as [Hc [Hf [Hs [Hd [Hsp _]]]]]. destruct IH as [I1 [I2 I3]].
-    cbn [existsb blocked]. rewrite Hs, Hc, Hf, Hd. repeat split; try assumption.
-    intros x Hx. cbn [mem_str existsb]. fold (mem_str x l). rewrite (I3 x Hx), orb_false_r.
-    destruct (str_eqb_spec x t) as [->|]; [|reflexivity]. apply mem_str_In in Hx. congruence.
-  - destruct (arg_flag_facts t Ht) as [Hc [Hf [Hs [Hd [Hsp _]]]]]. destruct IH as [I1 [I2 I3]].
-    destruct (undashed_plain a Ha) as [As _].
-    cbn [existsb blocked]. rewrite Hs, Hc, Hf, As. repeat split; try assumption.
-    intros x Hx. cbn [mem_str existsb]. fold (mem_str x l). rewrite (I3 x Hx), orb_false_r.
-    pose proof (undashed_special a Ha) as Asp.
-    destruct (str_eqb_spec x t) as [->|]; [apply mem_str_In in Hx; congruence|].
-    destruct (str_eqb_spec x a) as [->|]; [apply mem_str_In in Hx; congruence|]. reflexivity.
-Qed.
-
-Lemma pyargs_plain pre l fl i : plain_pre pre -> pyargs fl i (pre ++ l) = pyargs fl (length pre + i) l.
-Proof.
-  intros H. revert i. induction H as [|t l0 Ht _ IH|t a l0 Ht Ha _ IH]; intros i; [reflexivity| |].
-  - destruct (plain_flag_facts t Ht) as [_ [_ [_ [Hd [Hsp Hcl]]]]].
-    cbn [app pyargs length]. rewrite Hd. cbn [negb orb].
-    rewrite (mem_special dash t), (mem_special $"--" t), (mem_special $"--help" t), (mem_special $"--version" t);
-      try assumption; try (vm_compute; tauto).
-    rewrite Hcl, IH. f_equal. lia.
-  - destruct (arg_flag_facts t Ht) as [_ [_ [_ [Hd [Hsp Hcl]]]]].
-    cbn [app pyargs length hd_error]. rewrite Hd. cbn [negb orb].
-    rewrite (mem_special dash t), (mem_special $"--" t), (mem_special $"--help" t), (mem_special $"--version" t);
-      try assumption; try (vm_compute; tauto).
-    rewrite Hcl, IH. f_equal. lia.
-Qed.
-
-(* once -V / --version has been seen nothing is run *)
 Definition inert (r : pyrun) : Prop := r = RInfo \/ r = RUsageError.
+
+(* ---------------------------------------------------------------- one short option letter *)
+
+Definition step_fl (fl : pyflags) (c : N) : pyflags :=
+  if N.eqb c 86 then mkfl true (fl_inspect fl) (fl_skip1 fl)
+  else if N.eqb c 105 then mkfl (fl_version fl) true (fl_skip1 fl)
+  else if N.eqb c 120 then mkfl (fl_version fl) (fl_inspect fl) true
+  else fl.
+
+(* letters both parsers step over *)
+Definition passes (c : N) : bool :=
+  negb (N.eqb c 45) && negb (N.eqb c 99) && negb (N.eqb c 109) && negb (N.eqb c 87 || N.eqb c 88) &&
+  negb (N.eqb c 104 || N.eqb c 63) &&
+  (N.eqb c 86 || N.eqb c 105 || N.eqb c 120 || mem_ch c plain_short).
+
+Lemma cluster_pass c r fl next : passes c = true -> cluster fl (c :: r) next = cluster (step_fl fl c) r next.
+Proof.
+  unfold passes, step_fl. cbn [cluster]. intros H.
+  repeat (apply andb_true_iff in H as [H ?]).
+  destruct (N.eqb c 45); [discriminate|]. destruct (N.eqb c 99); [discriminate|].
+  destruct (N.eqb c 109); [discriminate|]. destruct (N.eqb c 87 || N.eqb c 88); [discriminate|].
+  destruct (N.eqb c 104 || N.eqb c 63); [discriminate|].
+  destruct (N.eqb c 86); [reflexivity|]. destruct (N.eqb c 105); [reflexivity|].
+  destruct (N.eqb c 120); [reflexivity|]. cbn [orb] in *.
+  match goal with H : mem_ch c plain_short = true |- _ => rewrite H end. reflexivity.
+Qed.
+
+(* the short options _KNOWN_OPTIONS lists, by what the two parsers do with them *)
+Inductive letter (c : N) : Prop :=
+| L_prog : with_arg c = true -> is_cm c = true -> mem_str (opt_name c) PY_INFO_OPTIONS = false -> letter c
+| L_arg : with_arg c = true -> is_cm c = false -> N.eqb c 87 || N.eqb c 88 = true ->
+          mem_str (opt_name c) PY_INFO_OPTIONS = false -> str_eqb $"-V" (opt_name c) = false ->
+          str_eqb $"-i" (opt_name c) = false -> str_eqb $"-x" (opt_name c) = false -> letter c
+| L_help : with_arg c = false -> N.eqb c 104 || N.eqb c 63 = true -> N.eqb c 45 = false -> N.eqb c 99 = false ->
+           N.eqb c 109 = false -> N.eqb c 87 || N.eqb c 88 = false ->
+           mem_str (opt_name c) PY_INFO_OPTIONS = true -> letter c
+| L_pass : with_arg c = false -> passes c = true ->
+           mem_str (opt_name c) PY_INFO_OPTIONS = N.eqb c 86 ->
+           str_eqb $"-V" (opt_name c) = N.eqb c 86 -> str_eqb $"-i" (opt_name c) = N.eqb c 105 ->
+           str_eqb $"-x" (opt_name c) = N.eqb c 120 -> letter c.
+
+Lemma known_letter c : mem_str (opt_name c) PY_KNOWN_OPTIONS = true -> letter c.
+Proof.
+  intros H. apply mem_str_In in H. unfold opt_name in H. vm_compute in H.
+  repeat (destruct H as [H|H];
+          [first [ discriminate H
+                 | injection H as <-;
+                   first [ apply L_prog; vm_compute; reflexivity
+                         | apply L_arg; vm_compute; reflexivity
+                         | apply L_help; vm_compute; reflexivity
+                         | apply L_pass; vm_compute; reflexivity ] ]|]).
+  destruct H.
+Qed.
+
+Lemma upd_cons fl c ss : passes c = true ->
+  str_eqb $"-V" (opt_name c) = N.eqb c 86 -> str_eqb $"-i" (opt_name c) = N.eqb c 105 ->
+  str_eqb $"-x" (opt_name c) = N.eqb c 120 ->
+  upd fl (opt_name c :: ss) = upd (step_fl fl c) ss.
+Proof.
+  intros _ HV HI HX. unfold upd, step_fl. cbn [mem_str existsb]. fold (mem_str $"-V" ss) (mem_str $"-i" ss) (mem_str $"-x" ss).
+  rewrite HV, HI, HX.
+  destruct (N.eqb_spec c 86) as [->|]; [cbn; rewrite !orb_true_r; reflexivity|].
+  destruct (N.eqb_spec c 105) as [->|]; [cbn; rewrite !orb_true_r; reflexivity|].
+  destruct (N.eqb_spec c 120) as [->|]; [cbn; rewrite !orb_true_r; reflexivity|].
+  cbn [orb]. destruct fl; reflexivity.
+Qed.
+
+Lemma upd_one fl o : str_eqb $"-V" o = false -> str_eqb $"-i" o = false -> str_eqb $"-x" o = false -> upd fl [o] = fl.
+Proof. intros A B C. unfold upd. cbn [mem_str existsb]. rewrite A, B, C. cbn. rewrite !orb_false_r. destruct fl; reflexivity. Qed.
+
+(* ---------------------------------------------------------------- one option token (a cluster) *)
+
+(* what CPython's reading of a cluster may be, given the scanner's reading (ss, e) of the same letters *)
+Definition cl_rel (fl : pyflags) (ss : list str) (e : scl) (has_next : bool) (x : cl) : Prop :=
+  match x with
+  | CErr => True
+  | CInfo => has_info ss = true
+  | CEnd => False
+  | CCmd fl' code => fl' = upd fl ss /\ e = SProg 99 code /\ (code = None -> has_next = true) /\
+                     (has_info ss = true -> fl_version fl' = true)
+  | CMod fl' m => fl' = upd fl ss /\ e = SProg 109 m /\ (m = None -> has_next = true) /\
+                  (has_info ss = true -> fl_version fl' = true)
+  | CNext fl' b => fl' = upd fl ss /\ e = SNext b /\ (b = true -> has_next = true) /\
+                   (has_info ss = true -> fl_version fl' = true)
+  end.
+
+Lemma cluster_rel cs : forall fl next,
+  known (fst (scan_cluster cs)) = true ->
+  cl_rel fl (fst (scan_cluster cs)) (snd (scan_cluster cs)) (match next with Some _ => true | None => false end)
+         (cluster fl cs next).
+Proof.
+  induction cs as [|c r IH]; intros fl next HK.
+  - cbn. repeat split; try discriminate. unfold upd. cbn. rewrite !orb_false_r. destruct fl; reflexivity.
+  - assert (HL : letter c).
+    { apply known_letter. cbn [scan_cluster] in HK. destruct (with_arg c).
+      - destruct (is_cm c); cbn [fst known forallb] in HK; apply andb_true_iff in HK as [HK _]; exact HK.
+      - destruct (scan_cluster r) as [ss e]. cbn [fst known forallb] in HK. apply andb_true_iff in HK as [HK _]. exact HK. }
+    destruct HL as [HW HC HI|HW HC H8 HI HV Hi Hx|HW HH H45 H99 H109 H8 HI|HW HP HI HV Hi Hx].
+    + (* -c / -m *)
+      cbn [scan_cluster]. rewrite HW, HC. cbn [fst snd]. unfold is_cm in HC. cbn [cluster].
+      assert (E45 : N.eqb c 45 = false).
+      { destruct (N.eqb_spec c 99) as [->|]; [reflexivity|]. destruct (N.eqb_spec c 109) as [->|]; [reflexivity|discriminate]. }
+      rewrite E45.
+      assert (U : upd fl [opt_name c] = fl).
+      { destruct (N.eqb_spec c 99) as [->|]; [unfold upd; cbn; rewrite !orb_false_r; destruct fl; reflexivity|].
+        destruct (N.eqb_spec c 109) as [->|]; [unfold upd; cbn; rewrite !orb_false_r; destruct fl; reflexivity|discriminate]. }
+      assert (NI : has_info [opt_name c] = false) by (unfold has_info; cbn [existsb]; rewrite HI; reflexivity).
+      destruct (N.eqb_spec c 99) as [->|N99].
+      * destruct r; [destruct next|]; cbn [cl_rel]; try exact I; rewrite U; repeat split; try discriminate;
+          rewrite NI; discriminate.
+      * destruct (N.eqb_spec c 109) as [->|]; [|discriminate].
+        destruct r; [destruct next|]; cbn [cl_rel]; try exact I; rewrite U; repeat split; try discriminate;
+          rewrite NI; discriminate.
+    + (* -W / -X *)
+      cbn [scan_cluster]. rewrite HW, HC. cbn [fst snd]. cbn [cluster].
+      assert (E : N.eqb c 45 = false /\ N.eqb c 99 = false /\ N.eqb c 109 = false).
+      { apply orb_true_iff in H8 as [H8|H8]; apply N.eqb_eq in H8; subst c; repeat split; reflexivity. }
+      destruct E as [E45 [E99 E109]]. rewrite E45, E99, E109, H8.
+      assert (NI : has_info [opt_name c] = false) by (unfold has_info; cbn [existsb]; rewrite HI; reflexivity).
+      destruct r; [destruct next|]; cbn [cl_rel is_empty]; try exact I;
+        rewrite (upd_one fl _ HV Hi Hx); repeat split; try discriminate; rewrite NI; discriminate.
+    + (* -h / -? *)
+      cbn [cluster]. rewrite H45, H99, H109, H8, HH. cbn [cl_rel].
+      cbn [scan_cluster]. rewrite HW. destruct (scan_cluster r) as [ss e]. cbn [fst].
+      unfold has_info. cbn [existsb]. rewrite HI. reflexivity.
+    + (* a letter both step over *)
+      rewrite (cluster_pass c r fl next HP). cbn [scan_cluster] in *. rewrite HW in *.
+      specialize (IH (step_fl fl c) next).
+      destruct (scan_cluster r) as [ss e]. cbn [fst snd] in *.
+      cbn [known forallb] in HK. apply andb_true_iff in HK as [_ HK]. specialize (IH HK).
+      assert (HIi : has_info (opt_name c :: ss) = N.eqb c 86 || has_info ss).
+      { unfold has_info. cbn [existsb]. rewrite HI. reflexivity. }
+      destruct (cluster (step_fl fl c) r next) as [| | |fl' code|fl' m|fl' b]; cbn [cl_rel] in *.
+      * exact I.
+      * rewrite HIi, IH. apply orb_true_r.
+      * exact IH.
+      * rewrite (upd_cons fl c ss HP HV Hi Hx). destruct IH as [A [B [C D]]]. repeat split; try assumption.
+        rewrite HIi. intros HX. apply orb_true_iff in HX as [HX|HX]; [|exact (D HX)].
+        rewrite A. unfold upd, step_fl. rewrite HX. cbn. reflexivity.
+      * rewrite (upd_cons fl c ss HP HV Hi Hx). destruct IH as [A [B [C D]]]. repeat split; try assumption.
+        rewrite HIi. intros HX. apply orb_true_iff in HX as [HX|HX]; [|exact (D HX)].
+        rewrite A. unfold upd, step_fl. rewrite HX. cbn. reflexivity.
+      * rewrite (upd_cons fl c ss HP HV Hi Hx). destruct IH as [A [B [C D]]]. repeat split; try assumption.
+        rewrite HIi. intros HX. apply orb_true_iff in HX as [HX|HX]; [|exact (D HX)].
+        rewrite A. unfold upd, step_fl. rewrite HX. cbn. reflexivity.
+Qed.
+
+(* ---------------------------------------------------------------- pending -V: nothing runs *)
 
 Lemma cluster_version fl cs nx : fl_version fl = true ->
   match cluster fl cs nx with
@@ -381,160 +207,478 @@ Qed.
 Lemma version_inert l fl i : fl_version fl = true -> inert (pyargs fl i l).
 Proof. apply (version_inert_n (length l)). lia. Qed.
 
-(* a help / version flag as the first token after a plain run: nothing is run *)
-Lemma safe_flag_inert h post i : In h PY_SAFE_FLAGS -> inert (pyargs fl0 i (h :: post)).
+(* ---------------------------------------------------------------- the whole option list *)
+
+(* what CPython does, given the scanner's result r on the same tokens l = tokens[i:] *)
+Definition agrees (fl : pyflags) (i : nat) (l : list str) (r : scanres) : Prop :=
+  let fl' := upd fl (sc_seen r) in
+  match sc_mode r with
+  | Some c =>
+      exists a, sc_arg r = Some a /\
+        ((c = 99 /\ pyargs fl i l = RCommand (sc_idx r) a fl') \/ (c = 109 /\ pyargs fl i l = RModule (sc_idx r) a fl'))
+  | None => pyargs fl i l = program fl' (sc_idx r) (skipn (sc_idx r - i) l)
+  end.
+
+Lemma known_cons t x : known (t :: x) = mem_str t PY_KNOWN_OPTIONS && known x.
+Proof. reflexivity. Qed.
+Lemma has_info_cons t x : has_info (t :: x) = mem_str t PY_INFO_OPTIONS || has_info x.
+Proof. reflexivity. Qed.
+Lemma known_app a b : known (a ++ b) = known a && known b.
+Proof. unfold known. apply forallb_app. Qed.
+Lemma has_info_app a b : has_info (a ++ b) = has_info a || has_info b.
+Proof. unfold has_info. apply existsb_app. Qed.
+Lemma mem_str_app x a b : mem_str x (a ++ b) = mem_str x a || mem_str x b.
+Proof. unfold mem_str. apply existsb_app. Qed.
+Lemma upd_app fl a b : upd fl (a ++ b) = upd (upd fl a) b.
+Proof. unfold upd. cbn [fl_version fl_inspect fl_skip1]. rewrite !mem_str_app, !orb_assoc. reflexivity. Qed.
+Lemma upd_nil fl : upd fl [] = fl.
+Proof. unfold upd. cbn. rewrite !orb_false_r. destruct fl; reflexivity. Qed.
+
+Lemma scan_idx_n n : forall l i, (length l <= n)%nat -> (i <= sc_idx (scan i l))%nat.
 Proof.
-  intros H. unfold PY_SAFE_FLAGS in H. cbn [In] in H.
+  induction n as [|n IH]; intros l i Hn.
+  - destruct l; [cbn; lia|cbn in Hn; lia].
+  - destruct l as [|t r]; [cbn; lia|]. cbn [length] in Hn. cbn [scan].
+    destruct (negb (is_dash t) || str_eqb t dash); [cbn; lia|].
+    destruct (str_eqb t $"--"); [cbn; lia|].
+    destruct (prefixb $"--" t).
+    { cbn [add_seen sc_idx]. destruct (str_eqb t $"--check-hash-based-pycs").
+      - destruct r as [|x r']; [cbn; lia|]. specialize (IH r' (S (S i))). cbn [length] in Hn. lia.
+      - specialize (IH r (S i)). lia. }
+    destruct (scan_cluster (tl t)) as [ss [[|]|c [a|]]]; cbn [add_seen sc_idx]; try lia.
+    + destruct r as [|x r']; [cbn; lia|]. specialize (IH r' (S (S i))). cbn [length] in Hn. lia.
+    + specialize (IH r (S i)). lia.
+Qed.
+Lemma scan_idx l i : (i <= sc_idx (scan i l))%nat.
+Proof. apply (scan_idx_n (length l)). lia. Qed.
+
+(* a known long option *)
+Lemma known_long t : mem_str t PY_KNOWN_OPTIONS = true -> prefixb $"--" t = true ->
+  (t = $"--check-hash-based-pycs" /\ mem_str t PY_INFO_OPTIONS = false) \/
+  (mem_str t PY_INFO_OPTIONS = true /\
+   (t = $"--help" \/ t = $"--version" \/
+    (str_eqb t $"--help" = false /\ str_eqb t $"--version" = false /\ str_eqb t $"--" = false /\
+     forall fl nx, cluster fl (tl t) nx = CInfo))).
+Proof.
+  intros H HP. apply mem_str_In in H. unfold PY_KNOWN_OPTIONS in H. cbn [In] in H.
   repeat (destruct H as [<-|H];
-          [first [ left; reflexivity
-                 | apply (version_inert post (mkfl true false false) (S i)); reflexivity ]|]).
+          [first [ discriminate HP
+                 | left; split; [reflexivity|vm_compute; reflexivity]
+                 | right; split; [vm_compute; reflexivity|left; reflexivity]
+                 | right; split; [vm_compute; reflexivity|right; left; reflexivity]
+                 | right; split; [vm_compute; reflexivity|right; right; repeat split; intros; reflexivity] ]|]).
   destruct H.
+Qed.
+
+Lemma skipn_step {A} (x : A) l i j : (S i <= j)%nat -> skipn (j - i) (x :: l) = skipn (j - S i) l.
+Proof. intros H. replace (j - i)%nat with (S (j - S i)) by lia. reflexivity. Qed.
+
+(* -c / -m at the end of a cluster: the program is the attached text or the next token *)
+Lemma prog_case fl i r ss (c : N) (code : option str) :
+  (code = None -> match hd_error r with Some _ => true | None => false end = true) ->
+  (has_info ss = true -> fl_version (upd fl ss) = true) ->
+  (c = 99 \/ c = 109) ->
+  let x := match code with
+           | Some a => fin (upd fl ss) (if N.eqb c 99 then RCommand i a (upd fl ss) else RModule i a (upd fl ss))
+           | None => match r with
+                     | a :: _ => fin (upd fl ss) (if N.eqb c 99 then RCommand (S i) a (upd fl ss) else RModule (S i) a (upd fl ss))
+                     | [] => RUsageError
+                     end
+           end in
+  let rr := match code with Some a => mkscan ss i (Some c) (Some a) | None => mkscan ss (S i) (Some c) (hd_error r) end in
+  (has_info (sc_seen rr) = true -> inert x) /\
+  (has_info (sc_seen rr) = false -> fl_version fl = false ->
+     inert x \/ exists a, sc_arg rr = Some a /\
+        ((c = 99 /\ x = RCommand (sc_idx rr) a (upd fl (sc_seen rr))) \/ (c = 109 /\ x = RModule (sc_idx rr) a (upd fl (sc_seen rr))))).
+Proof.
+  intros CN CV Hc. cbn zeta.
+  assert (VF : has_info ss = false -> fl_version fl = false -> fl_version (upd fl ss) = false).
+  { intros Hi Hv. unfold upd. cbn [fl_version]. rewrite Hv. cbn [orb]. destruct (mem_str $"-V" ss) eqn:EV; [|reflexivity].
+    exfalso. apply mem_str_In in EV.
+    assert (X : has_info ss = true) by (apply existsb_exists; exists $"-V"; split; [exact EV|vm_compute; reflexivity]).
+    congruence. }
+  destruct code as [a|]; cbn [sc_seen sc_arg sc_idx].
+  - split.
+    + intros Hi. unfold fin. rewrite (CV Hi). left. reflexivity.
+    + intros Hi Hv. right. exists a. split; [reflexivity|]. unfold fin. rewrite (VF Hi Hv).
+      destruct Hc as [->| ->]; [left|right]; split; reflexivity.
+  - destruct r as [|a r']; cbn [hd_error] in *; [specialize (CN eq_refl); discriminate CN|]. split.
+    + intros Hi. unfold fin. rewrite (CV Hi). left. reflexivity.
+    + intros Hi Hv. right. exists a. split; [reflexivity|]. unfold fin. rewrite (VF Hi Hv).
+      destruct Hc as [->| ->]; [left|right]; split; reflexivity.
+Qed.
+
+(* main correspondence: CPython and _scan_options read the options alike, or CPython stops with a
+   message (usage error, help, version) *)
+Lemma scan_agrees_n n : forall l fl i, (length l <= n)%nat ->
+  known (sc_seen (scan i l)) = true ->
+  (has_info (sc_seen (scan i l)) = true -> inert (pyargs fl i l)) /\
+  (has_info (sc_seen (scan i l)) = false -> fl_version fl = false ->
+     inert (pyargs fl i l) \/ agrees fl i l (scan i l)).
+Proof.
+  induction n as [|n IH]; intros l fl i Hn HK.
+  { destruct l; [|cbn in Hn; lia]. cbn. split; [discriminate|]. intros _ Hv. right.
+    unfold agrees. cbn. rewrite upd_nil. unfold fin. rewrite Hv. replace (i - i)%nat with 0%nat by lia. reflexivity. }
+  destruct l as [|t r].
+  { cbn. split; [discriminate|]. intros _ Hv. right.
+    unfold agrees. cbn. rewrite upd_nil. unfold fin. rewrite Hv. replace (i - i)%nat with 0%nat by lia. reflexivity. }
+  cbn [length] in Hn. unfold agrees. cbn [scan pyargs] in *.
+  destruct (negb (is_dash t) || str_eqb t dash) eqn:E1.
+  { cbn [sc_seen has_info existsb]. split; [discriminate|]. intros _ Hv. right. unfold agrees. cbn [sc_mode sc_idx sc_seen].
+    rewrite upd_nil. replace (i - i)%nat with 0%nat by lia. unfold fin. rewrite Hv. reflexivity. }
+  destruct (str_eqb t $"--") eqn:E2.
+  { cbn [sc_seen has_info existsb]. split; [discriminate|]. intros _ Hv. right. unfold agrees. cbn [sc_mode sc_idx sc_seen].
+    rewrite upd_nil. unfold fin. rewrite Hv. replace (S i - i)%nat with 1%nat by lia. reflexivity. }
+  destruct (prefixb $"--" t) eqn:E3.
+  { (* a long option *)
+    cbn [add_seen sc_seen app] in HK |- *.
+    rewrite known_cons in HK. apply andb_true_iff in HK as [HKt HK]. rewrite has_info_cons.
+    destruct (known_long t HKt E3) as [[-> HNI]|[HI HC]].
+    - (* --check-hash-based-pycs ARG *)
+      rewrite HNI. cbn [orb]. replace (str_eqb $"--check-hash-based-pycs" $"--check-hash-based-pycs") with true in * by reflexivity.
+      replace (str_eqb $"--check-hash-based-pycs" $"--help") with false by reflexivity.
+      replace (str_eqb $"--check-hash-based-pycs" $"--version") with false by reflexivity.
+      replace (cluster fl (tl $"--check-hash-based-pycs") (hd_error r))
+        with (match hd_error r with Some a => if mem_str a hash_modes then CNext fl true else CErr | None => CErr end)
+        by reflexivity.
+      destruct r as [|a r']; cbn [hd_error].
+      { split; [discriminate|]. intros _ _. left. right. reflexivity. }
+      destruct (mem_str a hash_modes).
+      2:{ split; intros; [right; reflexivity|left; right; reflexivity]. }
+      cbn [length] in Hn. destruct (IH r' fl (S (S i)) ltac:(lia) HK) as [I1 I2]. split; [exact I1|].
+      intros Hi Hv. destruct (I2 Hi Hv) as [X|X]; [left; exact X|right].
+      unfold agrees in *. cbn [add_seen sc_mode sc_arg sc_idx sc_seen].
+      assert (U : upd fl ($"--check-hash-based-pycs" :: sc_seen (scan (S (S i)) r')) = upd fl (sc_seen (scan (S (S i)) r'))).
+      { change ($"--check-hash-based-pycs" :: ?x) with ([$"--check-hash-based-pycs"] ++ x). rewrite upd_app. f_equal. apply upd_one; reflexivity. }
+      rewrite U. destruct (sc_mode (scan (S (S i)) r')); [exact X|].
+      rewrite X. pose proof (scan_idx r' (S (S i))) as G.
+      rewrite (skipn_step _ _ i) by lia. rewrite (skipn_step _ _ (S i)) by lia. reflexivity.
+    - (* a help / version option *)
+      rewrite HI. cbn [orb]. split; [intros _|discriminate].
+      destruct HC as [->|[->|[N1 [N2 [N3 HCl]]]]].
+      + left. reflexivity.
+      + replace (str_eqb $"--version" $"--help") with false by reflexivity.
+        replace (str_eqb $"--version" $"--version") with true by reflexivity.
+        apply version_inert. reflexivity.
+      + rewrite N1, N2, HCl. left. reflexivity. }
+  (* a cluster of short options *)
+  assert (E4 : str_eqb t $"--help" = false /\ str_eqb t $"--version" = false).
+  { split; (destruct (str_eqb_spec t $"--help") as [->|]; [discriminate E3|]);
+      (destruct (str_eqb_spec t $"--version") as [->|]; [discriminate E3|]); reflexivity. }
+  destruct E4 as [E4 E5]. rewrite E4, E5.
+  pose proof (cluster_rel (tl t) fl (hd_error r)) as CR.
+  destruct (scan_cluster (tl t)) as [ss e] eqn:ESC. cbn [fst snd] in CR.
+  assert (HKs : known ss = true).
+  { destruct e as [[|]|c [a|]]; cbn [add_seen sc_seen] in HK; try rewrite known_app in HK;
+      try (apply andb_true_iff in HK as [HK _]); exact HK. }
+  specialize (CR HKs).
+  destruct (cluster fl (tl t) (hd_error r)) as [| | |fl' code|fl' m|fl' b] eqn:ECL; cbn [cl_rel] in CR.
+  - (* usage error *) split; intros; [right; reflexivity|left; right; reflexivity].
+  - (* help *) split; intros; [left; reflexivity|left; left; reflexivity].
+  - destruct CR.
+  - (* -c *)
+    destruct CR as [-> [-> [CN CV]]]. destruct code as [a|];
+      [apply (prog_case fl i r ss 99 (Some a))|apply (prog_case fl i r ss 99 None)]; try assumption; try (left; reflexivity); discriminate.
+  - (* -m *)
+    destruct CR as [-> [-> [CN CV]]]. destruct m as [a|];
+      [apply (prog_case fl i r ss 109 (Some a))|apply (prog_case fl i r ss 109 None)]; try assumption; try (right; reflexivity); discriminate.
+  - (* the cluster is read to its end *)
+    destruct CR as [-> [-> [CB CV]]].
+    assert (REST : forall k r0, (length r0 <= n)%nat -> known (sc_seen (scan k r0)) = true ->
+              (forall j, (k <= j)%nat -> skipn (j - i) (t :: r) = skipn (j - k) r0) ->
+              (has_info (ss ++ sc_seen (scan k r0)) = true -> inert (pyargs (upd fl ss) k r0)) /\
+              (has_info (ss ++ sc_seen (scan k r0)) = false -> fl_version fl = false ->
+                 inert (pyargs (upd fl ss) k r0) \/
+                 (let rr := add_seen ss (scan k r0) in
+                  let fl' := upd fl (sc_seen rr) in
+                  match sc_mode rr with
+                  | Some c => exists a, sc_arg rr = Some a /\
+                       ((c = 99 /\ pyargs (upd fl ss) k r0 = RCommand (sc_idx rr) a fl') \/
+                        (c = 109 /\ pyargs (upd fl ss) k r0 = RModule (sc_idx rr) a fl'))
+                  | None => pyargs (upd fl ss) k r0 = program fl' (sc_idx rr) (skipn (sc_idx rr - i) (t :: r))
+                  end))).
+    { intros k r0 Hl HK0 SK. destruct (IH r0 (upd fl ss) k Hl HK0) as [I1 I2]. rewrite has_info_app. split.
+      - intros Hi. apply orb_true_iff in Hi as [Hi|Hi]; [apply version_inert; exact (CV Hi)|exact (I1 Hi)].
+      - intros Hi Hv. apply orb_false_iff in Hi as [Hi1 Hi2].
+        assert (V : fl_version (upd fl ss) = false).
+        { unfold upd. cbn [fl_version]. rewrite Hv. cbn [orb]. destruct (mem_str $"-V" ss) eqn:EV; [|reflexivity].
+          exfalso. apply mem_str_In in EV.
+          assert (X : has_info ss = true) by (apply existsb_exists; exists $"-V"; split; [exact EV|vm_compute; reflexivity]).
+          congruence. }
+        destruct (I2 Hi2 V) as [X|X]; [left; exact X|right].
+        unfold agrees in X. cbn [add_seen sc_mode sc_arg sc_idx sc_seen]. rewrite upd_app.
+        destruct (sc_mode (scan k r0)); [exact X|]. rewrite X. rewrite (SK _ (scan_idx r0 k)). reflexivity. }
+    destruct b.
+    + (* -W / -X with the next token as argument *)
+      destruct r as [|a r']; cbn [hd_error] in *; [specialize (CB eq_refl); discriminate CB|].
+      cbn [add_seen sc_seen] in HK. rewrite known_app in HK. apply andb_true_iff in HK as [_ HK].
+      cbn [length] in Hn.
+      destruct (REST (S (S i)) r' ltac:(lia) HK) as [R1 R2].
+      { intros j Hj. rewrite (skipn_step _ _ i) by lia. rewrite (skipn_step _ _ (S i)) by lia. reflexivity. }
+      cbn [add_seen sc_seen]. split; [exact R1|]. intros Hi Hv. destruct (R2 Hi Hv) as [X|X]; [left; exact X|right; exact X].
+    + cbn [add_seen sc_seen] in HK. rewrite known_app in HK. apply andb_true_iff in HK as [_ HK].
+      destruct (REST (S i) r ltac:(lia) HK) as [R1 R2].
+      { intros j Hj. rewrite (skipn_step _ _ i) by lia. reflexivity. }
+      cbn [add_seen sc_seen]. split; [exact R1|]. intros Hi Hv. destruct (R2 Hi Hv) as [X|X]; [left; exact X|right; exact X].
+Qed.
+
+Lemma scan_agrees l fl i : known (sc_seen (scan i l)) = true ->
+  (has_info (sc_seen (scan i l)) = true -> inert (pyargs fl i l)) /\
+  (has_info (sc_seen (scan i l)) = false -> fl_version fl = false ->
+     inert (pyargs fl i l) \/ agrees fl i l (scan i l)).
+Proof. apply (scan_agrees_n (length l)). lia. Qed.
+
+Lemma scan_cluster_cm cs : forall ss c a, scan_cluster cs = (ss, SProg c a) -> is_cm c = true.
+Proof.
+  induction cs as [|c0 r IH]; intros ss c a H; cbn [scan_cluster] in H; [discriminate|].
+  destruct (with_arg c0).
+  - destruct (is_cm c0) eqn:E; [injection H as _ <- _; exact E|discriminate].
+  - destruct (scan_cluster r) as [ss0 e0]. injection H as _ ->. eapply IH. reflexivity.
+Qed.
+
+Lemma scan_mode_n n : forall l i c, (length l <= n)%nat -> sc_mode (scan i l) = Some c -> is_cm c = true.
+Proof.
+  induction n as [|n IH]; intros l i c Hn.
+  { destruct l; [discriminate|cbn in Hn; lia]. }
+  destruct l as [|t r]; [discriminate|]. cbn [length] in Hn. cbn [scan].
+  destruct (negb (is_dash t) || str_eqb t dash); [discriminate|].
+  destruct (str_eqb t $"--"); [discriminate|].
+  destruct (prefixb $"--" t).
+  { cbn [add_seen sc_mode]. destruct (str_eqb t $"--check-hash-based-pycs").
+    - destruct r as [|a r']; [discriminate|]. cbn [length] in Hn. apply IH. lia.
+    - apply IH. lia. }
+  destruct (scan_cluster (tl t)) as [ss e] eqn:ESC. destruct e as [[|]|c0 [a|]]; cbn [add_seen sc_mode].
+  - destruct r as [|a r']; [discriminate|]. cbn [length] in Hn. apply IH. lia.
+  - apply IH. lia.
+  - intros H. injection H as <-. eapply scan_cluster_cm. exact ESC.
+  - intros H. injection H as <-. eapply scan_cluster_cm. exact ESC.
+Qed.
+
+(* ---------------------------------------------------------------- soundness, for every token list *)
+
+Definition cwd_of (cc : option str) (pc : str) : str := match cc with Some c => c | None => pc end.
+
+Lemma skipn_nth {A} (l : list A) k x : nth_error l k = Some x -> exists rest, skipn k l = x :: rest.
+Proof.
+  revert l. induction k as [|k IH]; intros [|y l] H; try discriminate.
+  - injection H as ->. exists l. reflexivity.
+  - cbn [nth_error] in H. cbn [skipn]. apply IH. exact H.
 Qed.
 
 Section Sound.
   Variable resolve : str -> option str.
   Variable analyze : str -> bool.
-  Notation classify := (classify resolve analyze).
-  Notation sound := (sound resolve analyze).
+  Variable shadow : str -> bool.
+  Notation classify := (classify resolve analyze shadow).
+  Notation sound := (sound resolve analyze shadow).
 
   Lemma inert_sound cwd toks r : inert r -> sound cwd toks r.
   Proof. intros [->| ->]; exact I. Qed.
 
-  Lemma nth_error_mid {A} (a : list A) s p : nth_error (a ++ s :: p) (length a) = Some s.
-  Proof. induction a; [reflexivity|assumption]. Qed.
+  (* classify on at least two tokens, in terms of the scan *)
+  Definition classify_body (cwd : str) (tokens : list str) (r : scanres) : pyres :=
+    let seen := sc_seen r in
+    if negb (known seen) then PAsk
+    else if has_info seen then PAllow
+    else if match sc_mode r with Some c => N.eqb c 99 | None => false end then PAsk
+    else if mem_str $"-i" seen || mem_str $"-x" seen then PAsk
+    else if match sc_mode r with Some c => N.eqb c 109 | None => false end then
+      match sc_arg r with
+      | Some m => if str_eqb m $"calendar" && negb (shadow cwd) then PAllow else PAsk
+      | None => PAsk
+      end
+    else
+      match nth_error tokens (sc_idx r) with
+      | None => PAsk
+      | Some tok =>
+          if str_eqb tok dash then PAsk
+          else match resolve (pjoin cwd tok) with
+               | None => PExn
+               | Some p => if analyze p then PAllow else PAsk
+               end
+      end.
 
-  Lemma index_of_last x pre : mem_str x pre = false -> index_of x (pre ++ [x]) = length pre.
+  Lemma classify_cons cc pc t0 r0 rest :
+    classify cc pc (t0 :: r0 :: rest) = classify_body (cwd_of cc pc) (t0 :: r0 :: rest) (scan 1 (r0 :: rest)).
+  Proof. reflexivity. Qed.
+
+  Lemma args_sound cc pc tokens :
+    classify cc pc tokens = PAllow -> sound (cwd_of cc pc) tokens (py_cmdline tokens).
   Proof.
-    induction pre as [|y pre IH]; cbn [app index_of length mem_str existsb].
-    - rewrite str_eqb_refl. reflexivity.
-    - fold (mem_str x pre). intros H. apply orb_false_iff in H as [H1 H2].
-      destruct (str_eqb_spec y x) as [->|_]; [rewrite str_eqb_refl in H1; discriminate|]. rewrite IH by exact H2. reflexivity.
+    destruct tokens as [|t0 [|r0 rest]]; try discriminate.
+    rewrite classify_cons. unfold py_cmdline. cbn [tl]. set (rs := r0 :: rest). set (cwd := cwd_of cc pc).
+    unfold classify_body. pose proof (scan_agrees rs fl0 1) as SA. pose proof (scan_idx rs 1) as GE.
+    destruct (known (sc_seen (scan 1 rs))) eqn:EK; [|discriminate]. cbn [negb].
+    destruct (SA eq_refl) as [I1 I2]. clear SA.
+    destruct (has_info (sc_seen (scan 1 rs))) eqn:EI.
+    { intros _. apply inert_sound. apply I1. reflexivity. }
+    destruct (I2 eq_refl eq_refl) as [X|X]; [intros _; apply inert_sound; exact X|]. clear I1 I2.
+    unfold agrees in X. destruct (sc_mode (scan 1 rs)) as [c|].
+    - destruct X as [a [EA X]].
+      destruct (N.eqb_spec c 99) as [->|N99]; [discriminate|].
+      destruct (mem_str $"-i" (sc_seen (scan 1 rs)) || mem_str $"-x" (sc_seen (scan 1 rs))) eqn:EIX; [discriminate|].
+      apply orb_false_iff in EIX as [Ei Ex].
+      destruct X as [[-> _]|[-> X]]; [contradiction|]. cbn [N.eqb Pos.eqb]. rewrite EA.
+      destruct (str_eqb_spec a $"calendar") as [->|]; [|discriminate].
+      destruct (shadow cwd) eqn:ES; [discriminate|]. intros _. rewrite X. cbn [PyArgs.sound].
+      repeat split; try assumption; try (unfold upd; cbn [fl_inspect fl0]; rewrite Ei; reflexivity).
+    - destruct (mem_str $"-i" (sc_seen (scan 1 rs)) || mem_str $"-x" (sc_seen (scan 1 rs))) eqn:EIX; [discriminate|].
+      apply orb_false_iff in EIX as [Ei Ex].
+      destruct (nth_error (t0 :: rs) (sc_idx (scan 1 rs))) as [tok|] eqn:EN; [|discriminate].
+      destruct (str_eqb_spec tok dash) as [->|ND]; [discriminate|].
+      destruct (resolve (pjoin cwd tok)) as [p|] eqn:ER; [|discriminate].
+      destruct (analyze p) eqn:EA; [|discriminate]. intros _.
+      assert (EN' : nth_error rs (sc_idx (scan 1 rs) - 1) = Some tok).
+      { destruct (sc_idx (scan 1 rs)) as [|k]; [lia|]. cbn [nth_error] in EN. replace (S k - 1)%nat with k by lia. exact EN. }
+      destruct (skipn_nth _ _ _ EN') as [more ES]. rewrite X, ES. cbn [program].
+      destruct (str_eqb_spec tok dash) as [->|_]; [contradiction|].
+      cbn [PyArgs.sound]. unfold upd. cbn [fl_inspect fl_skip1 fl0]. rewrite Ei, Ex. repeat split.
+      exists tok, p. repeat split; assumption.
   Qed.
 
-  Lemma mem_app_false x a b : mem_str x a = false -> mem_str x b = false -> mem_str x (a ++ b) = false.
-  Proof. unfold mem_str. rewrite existsb_app. intros -> ->. reflexivity. Qed.
+  (* ------------------------------------------------------------- what is read *)
 
-  (* the program selector that follows the plain options *)
-  Inductive prog_head : list str -> Prop :=
-  | ph_none : prog_head []
-  | ph_script s post : is_dash s = false -> prog_head (s :: post)
-  | ph_info h post : In h PY_SAFE_FLAGS -> prog_head (h :: post)
-  | ph_cm c post : In c PY_CM_FLAGS -> prog_head (c :: post).
-
-  Lemma args_sound cc pc t0 pre tail :
-    is_dash t0 = false -> plain_pre pre -> prog_head tail ->
-    classify cc pc (t0 :: pre ++ tail) = PAllow ->
-    sound (cwd_of cc pc) (t0 :: pre ++ tail) (py_cmdline (t0 :: pre ++ tail)).
+  Lemma firstn_nth {A} k : forall (l l' : list A), firstn (S k) l = firstn (S k) l' -> nth_error l k = nth_error l' k.
   Proof.
-    intros Ht0 Hp Hh HA. pose proof (plain_consumed pre Hp) as Hc.
-    destruct (plain_clean pre Hp) as [Hsafe [Hblk Hspec]].
-    unfold py_cmdline. cbn [tl]. rewrite (pyargs_plain pre tail fl0 1 Hp).
-    assert (T0 : forall x, In x special -> str_eqb t0 x = false).
-    { intros x Hx. apply mem_special; [exact Hx|]. apply undashed_special. exact Ht0. }
-    assert (OWN : forall x, In x special -> mem_str x (t0 :: pre) = false).
-    { intros x Hx. cbn [mem_str existsb]. fold (mem_str x pre). rewrite (Hspec x Hx), orb_false_r.
-      destruct (str_eqb_spec x t0) as [->|]; [|reflexivity].
-      specialize (T0 t0 Hx). rewrite str_eqb_refl in T0. discriminate T0. }
-    destruct Hh as [|s post Hs|h post Hh|c post Hcm].
-    - (* no program at all: never approved *)
-      exfalso. rewrite app_nil_r in HA. destruct pre as [|p0 pre']; [discriminate|].
-      set (pr := p0 :: pre') in *. rewrite classify_cons in HA by discriminate. unfold classify_body, find_script in HA.
-      pose proof (own_tail_app pr [] Hc) as E. rewrite app_nil_r in E. cbn [own_tail] in E. rewrite app_nil_r in E.
-      rewrite E, Hsafe in HA. rewrite (OWN $"-c"), (OWN $"-m"), (OWN $"-i") in HA by (vm_compute; tauto).
-      pose proof (find_script_app pr [] 1 Hc) as F. rewrite app_nil_r, Hblk in F. cbn [find_script_at] in F.
-      rewrite F in HA. discriminate.
-    - (* a script *)
-      rewrite classify_script_form in HA by assumption. unfold classify_script in HA.
-      rewrite Hsafe, Hblk in HA. rewrite (OWN $"-c"), (OWN $"-m"), (OWN $"-i") in HA by (vm_compute; tauto).
-      destruct (resolve (pjoin (cwd_of cc pc) s)) as [p|] eqn:Er; [|discriminate].
-      destruct (analyze p) eqn:Ea; [|discriminate].
-      cbn [pyargs]. rewrite Hs. cbn [negb orb]. unfold fin, program. cbn [fl_version fl0].
-      destruct (str_eqb_spec s dash) as [->|_]; [discriminate Hs|].
-      cbn [sound fl_inspect fl_skip1 fl0]. repeat split. exists s, p. repeat split; try assumption.
-      replace (length pre + 1)%nat with (S (length pre)) by lia. cbn [nth_error]. apply nth_error_mid.
-    - (* --help, -V, ...: CPython prints and exits *)
-      apply inert_sound. apply safe_flag_inert. exact Hh.
-    - (* -c / -m *)
-      unfold PY_CM_FLAGS in Hcm. cbn [In] in Hcm. destruct Hcm as [<-|[<-|[]]].
-      + (* -c: never approved *)
-        exfalso. rewrite classify_cons in HA by apply app_cons_ne. unfold classify_body in HA.
-        rewrite (own_tail_app pre _ Hc), (own_tail_cm $"-c") in HA by (vm_compute; reflexivity).
-        unfold existsb in HA. fold (existsb (fun t => mem_str t PY_SAFE_FLAGS)) in HA.
-        rewrite existsb_app, Hsafe in HA. cbn [existsb orb] in HA.
-        replace (mem_str $"-c" PY_SAFE_FLAGS) with false in HA by (vm_compute; reflexivity). cbn [orb] in HA.
-        replace (mem_str $"-c" (t0 :: pre ++ [$"-c"])) with true in HA; [discriminate|].
-        symmetry. apply mem_str_In. right. apply in_or_app. right. left. reflexivity.
-      + (* -m MODULE: only calendar *)
-        rewrite classify_cons in HA by apply app_cons_ne. unfold classify_body, m_branch in HA.
-        rewrite (own_tail_app pre _ Hc), (own_tail_cm $"-m") in HA by (vm_compute; reflexivity).
-        rewrite existsb_app, Hsafe in HA. cbn [existsb orb] in HA.
-        replace (mem_str $"-m" PY_SAFE_FLAGS) with false in HA by (vm_compute; reflexivity). cbn [orb] in HA.
-        replace (mem_str $"-c" (t0 :: pre ++ [$"-m"])) with false in HA.
-        2:{ symmetry. change (t0 :: pre ++ [$"-m"]) with ((t0 :: pre) ++ [$"-m"]).
-            apply mem_app_false; [apply OWN; vm_compute; tauto|vm_compute; reflexivity]. }
-        replace (mem_str $"-m" (t0 :: pre ++ [$"-m"])) with true in HA.
-        2:{ symmetry. apply mem_str_In. right. apply in_or_app. right. left. reflexivity. }
-        change (t0 :: pre ++ [$"-m"]) with ((t0 :: pre) ++ [$"-m"]) in HA.
-        rewrite (index_of_last $"-m" (t0 :: pre)) in HA by (apply OWN; vm_compute; tauto).
-        cbn [length] in HA.
-        match type of HA with context [nth_error (t0 :: ?X) (S ?n)] =>
-          change (nth_error (t0 :: X) (S n)) with (nth_error X n) in HA end.
-        destruct post as [|m post'].
-        * exfalso. replace (nth_error (pre ++ [$"-m"]) (S (length pre))) with (@None str) in HA; [discriminate HA|].
-          symmetry. apply nth_error_None. rewrite app_length. cbn [length]. lia.
-        * replace (nth_error (pre ++ $"-m" :: m :: post') (S (length pre))) with (Some m) in HA.
-          2:{ symmetry. replace (pre ++ $"-m" :: m :: post') with ((pre ++ [$"-m"]) ++ m :: post')
-                by (rewrite <- app_assoc; reflexivity).
-              replace (S (length pre)) with (length (pre ++ [$"-m"])) by (rewrite app_length; cbn [length]; lia).
-              apply nth_error_mid. }
-          destruct (str_eqb_spec m $"calendar") as [E|]; [|discriminate HA].
-          subst m. cbn [pyargs]. vm_compute. split; reflexivity.
+    induction k as [|k IH]; intros [|x l] [|y l'] H; cbn [firstn] in H; try discriminate; try reflexivity.
+    - injection H as ->. reflexivity.
+    - injection H as -> H. cbn [nth_error]. apply IH. exact H.
+  Qed.
+
+  Lemma firstn_cons_inv {A} k (x : A) l l' : firstn (S k) (x :: l) = firstn (S k) l' -> exists m, l' = x :: m /\ firstn k l = firstn k m.
+  Proof. destruct l' as [|y m]; cbn [firstn]; intros H; [discriminate|]. injection H as <- H. eauto. Qed.
+
+  (* _scan_options looks at nothing after the program position *)
+  Lemma scan_firstn_n n : forall l l' i, (length l <= n)%nat ->
+    firstn (S (sc_idx (scan i l) - i)) l = firstn (S (sc_idx (scan i l) - i)) l' -> scan i l' = scan i l.
+  Proof.
+    induction n as [|n IH]; intros l l' i Hn H.
+    { destruct l; [|cbn in Hn; lia]. destruct l'; [reflexivity|]. cbn in H. replace (i - i)%nat with 0%nat in H by lia. discriminate H. }
+    destruct l as [|t r].
+    { destruct l'; [reflexivity|]. cbn in H. replace (i - i)%nat with 0%nat in H by lia. discriminate H. }
+    cbn [length] in Hn. apply firstn_cons_inv in H as [m [-> H]]. revert H. cbn [scan].
+    destruct (negb (is_dash t) || str_eqb t dash); [reflexivity|].
+    destruct (str_eqb t $"--"); [reflexivity|].
+    destruct (prefixb $"--" t).
+    { cbn [add_seen sc_idx]. destruct (str_eqb t $"--check-hash-based-pycs").
+      - destruct r as [|a r']; cbn [sc_idx].
+        + replace (S (S i) - i)%nat with 2%nat by lia. destruct m as [|? [|? ?]]; cbn; intros H; try discriminate; reflexivity.
+        + pose proof (scan_idx r' (S (S i))) as G. intros H.
+          replace (sc_idx (scan (S (S i)) r') - i)%nat with (S (S (sc_idx (scan (S (S i)) r') - S (S i)))) in H by lia.
+          apply firstn_cons_inv in H as [m' [-> H]]. cbn [length] in Hn. rewrite (IH r' m' (S (S i))) by (try lia; exact H). reflexivity.
+      - pose proof (scan_idx r (S i)) as G. intros H.
+        replace (sc_idx (scan (S i) r) - i)%nat with (S (sc_idx (scan (S i) r) - S i)) in H by lia.
+        rewrite (IH r m (S i)) by (try lia; exact H). reflexivity. }
+    destruct (scan_cluster (tl t)) as [ss [[|]|c [a|]]]; cbn [add_seen sc_idx].
+    - destruct r as [|a r']; cbn [sc_idx].
+      + replace (S (S i) - i)%nat with 2%nat by lia. destruct m as [|? [|? ?]]; cbn; intros H; try discriminate; reflexivity.
+      + pose proof (scan_idx r' (S (S i))) as G. intros H.
+        replace (sc_idx (scan (S (S i)) r') - i)%nat with (S (S (sc_idx (scan (S (S i)) r') - S (S i)))) in H by lia.
+        apply firstn_cons_inv in H as [m' [-> H]]. cbn [length] in Hn. rewrite (IH r' m' (S (S i))) by (try lia; exact H). reflexivity.
+    - pose proof (scan_idx r (S i)) as G. intros H.
+      replace (sc_idx (scan (S i) r) - i)%nat with (S (sc_idx (scan (S i) r) - S i)) in H by lia.
+      rewrite (IH r m (S i)) by (try lia; exact H). reflexivity.
+    - reflexivity.
+    - replace (S i - i)%nat with 1%nat by lia. intros H. f_equal.
+      destruct r, m; cbn in H |- *; try discriminate; try reflexivity. injection H as ->. reflexivity.
+  Qed.
+
+  (* C17_args: with p the position where python's own options end (the script, or the argument of -c / -m),
+     the decision is a function of tokens[0..p] *)
+  Lemma args_tail cc pc tokens tokens' :
+    let p := sc_idx (scan 1 (tl tokens)) in
+    firstn (S p) tokens = firstn (S p) tokens' -> classify cc pc tokens = classify cc pc tokens'.
+  Proof.
+    cbn zeta. destruct tokens as [|t0 [|r0 rest]].
+    - cbn. destruct tokens'; [reflexivity|discriminate].
+    - cbn. destruct tokens' as [|? [|? ?]]; cbn; intros H; try discriminate; injection H as ->; reflexivity.
+    - cbn [tl]. set (rs := r0 :: rest). pose proof (scan_idx rs 1) as GE. intros H.
+      pose proof (firstn_nth _ _ _ H) as HN.
+      apply firstn_cons_inv in H as [m [-> H]].
+      replace (sc_idx (scan 1 rs)) with (S (sc_idx (scan 1 rs) - 1)) in H by lia.
+      pose proof (scan_firstn_n (length rs) rs m 1 ltac:(lia) H) as ES.
+      destruct m as [|m0 m']; [subst rs; cbn in H; discriminate H|].
+      unfold rs. rewrite !classify_cons. fold rs. rewrite ES. unfold classify_body. rewrite <- HN. reflexivity.
+  Qed.
+
+  (* ------------------------------------------------------------- which file *)
+
+  Lemma file_process_cwd c pc pc' tokens : classify (Some c) pc tokens = classify (Some c) pc' tokens.
+  Proof. reflexivity. Qed.
+
+  (* an approval has exactly three sources *)
+  Lemma allow_inv cc pc t0 r0 rest : let tokens := t0 :: r0 :: rest in let r := scan 1 (r0 :: rest) in
+    classify cc pc tokens = PAllow ->
+    known (sc_seen r) = true /\
+    ((exists o, In o (sc_seen r) /\ In o PY_INFO_OPTIONS) \/
+     (sc_mode r = Some 109 /\ sc_arg r = Some $"calendar" /\ shadow (cwd_of cc pc) = false /\
+      mem_str $"-i" (sc_seen r) = false) \/
+     (sc_mode r = None /\ mem_str $"-i" (sc_seen r) = false /\ mem_str $"-x" (sc_seen r) = false /\
+      exists s p, nth_error tokens (sc_idx r) = Some s /\ s <> dash /\
+                  resolve (pjoin (cwd_of cc pc) s) = Some p /\ analyze p = true)).
+  Proof.
+    cbn zeta. rewrite classify_cons. unfold classify_body. set (r := scan 1 (r0 :: rest)).
+    destruct (known (sc_seen r)); [|discriminate]. cbn [negb]. intros H. split; [reflexivity|]. revert H.
+    destruct (has_info (sc_seen r)) eqn:EI.
+    { intros _. left. apply existsb_exists in EI as [o [Ho Hi]]. exists o. split; [exact Ho|]. apply mem_str_In. exact Hi. }
+    destruct (sc_mode r) as [c|] eqn:EM.
+    - destruct (N.eqb_spec c 99); [discriminate|].
+      destruct (mem_str $"-i" (sc_seen r) || mem_str $"-x" (sc_seen r)) eqn:EIX; [discriminate|].
+      apply orb_false_iff in EIX as [Ei Ex].
+      destruct (N.eqb_spec c 109) as [->|]; [|destruct (nth_error _ _) as [tok|]; [|discriminate]].
+      + destruct (sc_arg r) as [m|]; [|discriminate].
+        destruct (str_eqb_spec m $"calendar") as [->|]; [|discriminate].
+        destruct (shadow (cwd_of cc pc)); [discriminate|]. intros _. right. left. repeat split; assumption.
+      + destruct (str_eqb tok dash); [discriminate|]. destruct (resolve _) as [p|]; [|discriminate].
+        (* a mode other than -c / -m does not exist; the scanner only returns c or m *)
+        exfalso. assert (G : is_cm c = true) by (apply (scan_mode_n (length (r0 :: rest)) (r0 :: rest) 1 c); [lia|exact EM]).
+        unfold is_cm in G. apply orb_true_iff in G as [G|G]; apply N.eqb_eq in G; congruence.
+    - destruct (mem_str $"-i" (sc_seen r) || mem_str $"-x" (sc_seen r)) eqn:EIX; [discriminate|].
+      apply orb_false_iff in EIX as [Ei Ex].
+      destruct (nth_error _ _) as [tok|] eqn:EN; [|discriminate].
+      destruct (str_eqb_spec tok dash) as [->|ND]; [discriminate|].
+      destruct (resolve _) as [p|] eqn:ER; [|discriminate]. destruct (analyze p) eqn:EA; [|discriminate].
+      intros _. right. right. repeat split; try assumption. exists tok, p. repeat split; assumption.
   Qed.
 End Sound.
 
-(* ---------------------------------------------------------------- what is false today *)
+(* the file system is consulted about one path only: the token at the position the scan returns *)
+Lemma file_only_path resolve an1 an2 shadow cc pc tokens :
+  (forall s p, nth_error tokens (sc_idx (scan 1 (tl tokens))) = Some s ->
+               resolve (pjoin (cwd_of cc pc) s) = Some p -> an1 p = an2 p) ->
+  classify resolve an1 shadow cc pc tokens = classify resolve an2 shadow cc pc tokens.
+Proof.
+  intros H. destruct tokens as [|t0 [|r0 rest]]; try reflexivity.
+  rewrite !classify_cons. unfold classify_body. cbn [tl] in H.
+  destruct (negb _); [reflexivity|]. destruct (has_info _); [reflexivity|].
+  destruct (match sc_mode _ with Some c => N.eqb c 99 | None => false end); [reflexivity|].
+  destruct (_ || _); [reflexivity|].
+  destruct (match sc_mode _ with Some c => N.eqb c 109 | None => false end); [reflexivity|].
+  destruct (nth_error _ _) as [tok|] eqn:EN; [|reflexivity].
+  destruct (str_eqb tok dash); [reflexivity|].
+  destruct (resolve _) as [p|] eqn:ER; [|reflexivity]. rewrite (H tok p eq_refl ER). reflexivity.
+Qed.
 
+(* `python [options] script args`, relative script: the verdict is that of resolve(cwd/script) *)
+Lemma file_relative resolve analyze shadow cwd pc tokens s :
+  let r := scan 1 (tl tokens) in
+  (2 <= length tokens)%nat -> known (sc_seen r) = true -> has_info (sc_seen r) = false -> sc_mode r = None ->
+  mem_str $"-i" (sc_seen r) = false -> mem_str $"-x" (sc_seen r) = false ->
+  nth_error tokens (sc_idx r) = Some s -> s <> dash -> is_abs s = false -> suffixb [47] cwd = false ->
+  classify resolve analyze shadow (Some cwd) pc tokens =
+  match resolve (cwd ++ [47] ++ s) with
+  | None => PExn
+  | Some p => if analyze p then PAllow else PAsk
+  end.
+Proof.
+  cbn zeta. destruct tokens as [|t0 [|r0 rest]]; cbn [length]; try lia. intros _. cbn [tl].
+  intros HK HI HM Hi Hx HN HD HA HS. rewrite classify_cons. unfold classify_body, cwd_of, pjoin.
+  rewrite HK, HI, HM, Hi, Hx, HN, HA, HS. cbn [negb orb].
+  destruct (str_eqb_spec s dash); [contradiction|]. reflexivity.
+Qed.
+
+(* concrete oracles for the examples *)
 Definition w_resolve (p : str) : option str := Some p.
 Definition w_analyze (p : str) : bool := str_eqb p $"/w/s.py".
-Definition w_classify := classify w_resolve w_analyze (Some $"/w") $"/".
-Definition unsound (tokens : list str) : Prop :=
-  w_classify tokens = PAllow /\ ~ sound w_resolve w_analyze $"/w" tokens (py_cmdline tokens).
-
-Ltac refute_with r fin :=
-  split; [vm_compute; reflexivity|];
-  let H := fresh "H" in
-  intro H; replace (py_cmdline _) with r in H by (vm_compute; reflexivity);
-  cbn [sound nth_error fl_inspect fl_skip1] in H; fin H.
-Ltac fin_false H := exact H.
-Ltac fin_flag1 H := let E := fresh in destruct H as [E _]; discriminate E.
-Ltac fin_flag2 H := let E := fresh in destruct H as [_ [E _]]; discriminate E.
-Ltac fin_mod H := let E := fresh in destruct H as [_ E]; discriminate E.
-Ltac fin_file H :=
-  let tok := fresh in let p := fresh in let E1 := fresh in let E2 := fresh in let E3 := fresh in
-  destruct H as [_ [_ [tok [p [E1 [E2 E3]]]]]]; injection E1 as <-; injection E2 as <-;
-  vm_compute in E3; discriminate E3.
-
-Lemma refuted_stdin : unsound [$"python"; $"-"; $"s.py"].              (* the program comes from stdin *)
-Proof. refute_with (RStdin fl0) fin_false. Qed.
-Lemma refuted_cluster_i : unsound [$"python"; $"-Bi"; $"s.py"].        (* REPL after the script *)
-Proof. refute_with (RFile 2 (mkfl false true false)) fin_flag1. Qed.
-Lemma refuted_skip_line : unsound [$"python"; $"-x"; $"s.py"].         (* first source line skipped *)
-Proof. refute_with (RFile 2 (mkfl false false true)) fin_flag2. Qed.
-Lemma refuted_cluster_c : unsound [$"python"; $"-Bc"; $"s.py"].        (* the token is executed as code *)
-Proof. refute_with (RCommand 2 $"s.py" fl0) fin_false. Qed.
-Lemma refuted_i_m : unsound [$"python"; $"-i"; $"-m"; $"calendar"].    (* -m is looked at before -i: REPL after calendar *)
-Proof. refute_with (RModule 3 $"calendar" (mkfl false true false)) fin_mod. Qed.
-Lemma refuted_arg_help : unsound [$"python"; $"-W"; $"-h"; $"evil.py"].  (* -h is the argument of -W *)
-Proof. refute_with (RFile 3 fl0) fin_file. Qed.
-Lemma refuted_arg_m : unsound [$"python"; $"-W"; $"-m"; $"calendar"].  (* runs the file ./calendar *)
-Proof. refute_with (RFile 3 fl0) fin_file. Qed.
-Lemma refuted_ddash : unsound [$"python"; $"--"; $"-h"].               (* runs the file ./-h *)
-Proof. refute_with (RFile 2 fl0) fin_file. Qed.
-
-(* "-" ends python's options for _own_options but not for _find_script_path: the tail is read *)
-Lemma refuted_tail :
-  exists resolve analyze cc pc post post',
-    classify resolve analyze cc pc ($"python" :: dash :: post) <> classify resolve analyze cc pc ($"python" :: dash :: post').
-Proof.
-  exists w_resolve, w_analyze, (Some $"/w"), $"/", [$"s.py"], [$"evil.py"]. vm_compute. discriminate.
-Qed.
+Definition w_shadow (c : str) : bool := false.
+Definition w_classify := classify w_resolve w_analyze w_shadow (Some $"/w") $"/".
